@@ -7,7 +7,7 @@
 (* deviation does not mention is still judged by the contract.                     *)
 EXTENDS BlobStore, TLC
 
-KnownIds == {"C03-KF1", "C03-KF2", "C03-KF3", "C03-KF4", "C03-KF5", "C03-KF7", "C03-KF8"}
+KnownIds == {"C03-KF3", "C03-KF5", "C03-KF7", "C03-KF8"}
 
 (* the probe event with replaceable judgements for get / size / len answers *)
 ProbeWith(ids, g, c, s, n, G(_, _, _), S(_, _, _), L(_)) ==
